@@ -6,6 +6,7 @@ package main
 
 import (
 	"bufio"
+	"crypto/sha1"
 	"fmt"
 	"io"
 	"math"
@@ -137,7 +138,31 @@ func (s *Solver) Check(asserts []*Term, wantModel bool, timeoutMs int) (string, 
 
 // CheckScript runs a complete script (declarations, assertions, check-sat); when vars is
 // non-nil and the answer is sat the values of those variables are fetched.
+type cachedAnswer struct {
+	res   string
+	model Model
+}
+
+var scriptCache sync.Map // sha1(script) -> cachedAnswer (decisive answers only)
+var cacheHits int64
+
 func (s *Solver) CheckScript(script string, vars map[string]Sort, timeoutMs int) (string, Model) {
+	h := sha1.Sum([]byte(script))
+	if v, ok := scriptCache.Load(h); ok {
+		ca := v.(cachedAnswer)
+		if ca.res == "unsat" || vars == nil || ca.model != nil {
+			atomic.AddInt64(&cacheHits, 1)
+			return ca.res, ca.model
+		}
+	}
+	res, model := s.checkScript(script, vars, timeoutMs)
+	if res != "unknown" {
+		scriptCache.Store(h, cachedAnswer{res, model})
+	}
+	return res, model
+}
+
+func (s *Solver) checkScript(script string, vars map[string]Sort, timeoutMs int) (string, Model) {
 	t0 := time.Now()
 	defer func() {
 		d := time.Since(t0)
